@@ -424,16 +424,15 @@ the formatted text parses to formats to the same text again (idempotence). For Q
 the theorem below instantiates it for the two MODELS restricted to the fragment, and the `frag`
 differential ties the two models to the two Rust functions on that fragment.
 
-Covered after step 3c: one statement that is a sequence of one or more steps (`,` / newline
-separated, "tall" steps set off by blank lines); each step — and each field value — a chain of one
-or more terms; a term is a bare identifier, a bare tuple name, an integer or binary literal, a
+Covered after step 3 (complete): one statement that is a sequence of one or more steps (`,` /
+newline separated, "tall" steps set off by blank lines); each step — and each field value — a chain
+of one or more terms; a term is a bare identifier, a bare tuple name, an integer or binary literal, a
 single-line string without holes, or an anonymous or named tuple of unnamed / named fields; no
-trivia. Chains of several terms include PIPELINES (`a ~> f`: after a bare identifier the chain may
-break onto `~> ` continuation lines; a pipeline that breaks is a tall step).
-One restriction remains for the theorems: `chainOk` — the last term of a chain of several terms is
-not a tuple with fields (else `chain_doc` takes its flattened-head path, `pretty::flatten`). The two
-MODELS cover those chains too and agree with the implementation there (differential).
-Outside (decided by the implementation oracle only): the chains excluded by `chainOk`, bindings and
+trivia. ALL chains of these terms: juxtaposition chains, pipelines with their `~> ` continuation
+lines, and chains ending in a tuple whose head `chain_doc` flattens onto one line (`pretty::flatten`
+of a term's doc is the text of its flat layout, `flatten_termDoc`). No restriction beyond
+well-formed names is left in `WFProg`.
+Outside (decided by the implementation oracle only): bindings and
 patterns (`x = …`, `(a) = …` — hence the `(`-initial step rules of 0ca76af / 63d9fac), blocks and
 branches, functions, spawns, selects, strings with holes and `"""` strings, accessors, imports,
 spreads, type aliases, and all comments / blank lines. -/
